@@ -20,17 +20,23 @@ let parse_attrs (s : string) =
         | [k] -> (scalars_of_hex k, [])
         | _ -> failwith "bad attr") (String.split_on_char ',' s)
 
-let parse_table (s : string) : xrow list =
+(* the content of table:table as the items the loop of read_table sees: rows (R… C… tokens),
+   start tags G<hex name> / end tags g<hex name> of the elements that hold or accompany the rows,
+   J = anything else (text, comment, empty element) *)
+let parse_table (s : string) : titem list =
   let toks = split_on ' ' s in
   let rows = ref [] and cur = ref None in
   let flush () =
     match !cur with
     | None -> ()
-    | Some (a, cells) -> rows := { xr_attrs = a; xr_cells = List.rev cells } :: !rows in
+    | Some (a, cells) -> rows := TRow { xr_attrs = a; xr_cells = List.rev cells } :: !rows; cur := None in
   List.iter (fun tok ->
       if tok <> "" then begin
         let body = String.sub tok 1 (String.length tok - 1) in
         match tok.[0] with
+        | 'G' -> flush (); rows := TOpen (scalars_of_hex body, []) :: !rows
+        | 'g' -> flush (); rows := TClose (scalars_of_hex body) :: !rows
+        | 'J' -> flush (); rows := TOther :: !rows
         | 'R' -> flush (); cur := Some (parse_attrs body, [])
         | 'C' ->
           let parts = String.split_on_char '~' body in
@@ -90,8 +96,9 @@ let approx (n : BinNums.coq_N) : float = float_of_string (string_of_n n)
 
 let run_file (args : string list) : string =
   let desc = match args with _ :: _ :: d :: _ -> d | _ -> "" in
-  let xrows = parse_table desc in
-  let model = outcome_str pair_str (read_xtable xrows) in
+  let items = parse_table desc in
+  let xrows = rows_of items in
+  let model = outcome_str pair_str (read_table_items (items @ [TClose k_table_table])) in
   let spec, flags =
     match map_outcome read_xrow xrows with
     | Ok rows ->
